@@ -84,16 +84,27 @@ FingerSet(s, n) == IF "fing" \in DOMAIN s THEN {s.fing[n][k] : k \in DOMAIN s.fi
 NearestLive(s, n) ==      \* nearestLiveNode(): first pingable node clockwise after n among fingers and predecessor, else n
   LET cands == {c \in (FingerSet(s, n) \cup {s.pred[n]}) \ {Nil, n} : Pingable(s, c)} IN
   IF cands = {} THEN n ELSE CHOOSE c \in cands : \A d \in cands \ {c} : ~NB(s.lay, n, d, c, FALSE)
-StabilizeF(s, n) ==
+(* stabilize() in two halves: the new list is computed from what the node reads (StabNewList), then installed and the new head
+   notified (StabInstall).  The periodic task and an advisory (FinishJoin / FinishLeave) can run stabilize on one node at the
+   same time: a round that computed its list before a join and installs it after the joiner's advisory undoes the advisory (lost
+   update) - the node then has a stale successor until its next round.  StabRead / StabWrite are that round; StabilizeF is a round
+   nobody interleaves with. *)
+StabNewList(s, n) ==
   LET raw0 == StabList(s, n, s.succ[n])
       raw == IF raw0 = <<>> /\ FixDead /\ \A i \in 1..Len(s.succ[n]) : ~Live(s, s.succ[n][i]) THEN <<NearestLive(s, n)>> ELSE raw0
-      nl == IF FixWrap THEN CutAtSelf(raw, n) ELSE raw IN
+  IN IF FixWrap THEN CutAtSelf(raw, n) ELSE raw
+StabInstall(s, n, nl) ==
   IF nl = <<>> THEN s
   ELSE LET s1 == [s EXCEPT !.succ[n] = nl]
            h == nl[1] IN
        IF Pingable(s1, n)          \* "don't re-notify our successor when we are leaving"
        THEN LET r == NotifyRes(s1, h, n) IN [s1 EXCEPT !.pred[h] = r[1], !.sur[h] = r[2]]
        ELSE s1
+StabilizeF(s, n) == StabInstall(s, n, StabNewList(s, n))
+StabReadEn(s, n) == Live(s, n) /\ s.succ[n] # <<>> /\ ~s.stb[n].on
+StabReadF(s, n) == [s EXCEPT !.stb[n] = [on |-> TRUE, nl |-> StabNewList(s, n)]]
+StabWriteEn(s, n) == s.stb[n].on
+StabWriteF(s, n) == StabInstall([s EXCEPT !.stb[n] = [on |-> FALSE, nl |-> <<>>]], n, s.stb[n].nl)
 
 CheckPredF(s, n) ==
   IF s.pred[n] # Nil /\ s.pred[n] # n /\ ~Pingable(s, s.pred[n]) THEN [Cov(s, "checkpred-cleared") EXCEPT !.pred[n] = Nil] ELSE s
@@ -308,6 +319,12 @@ NoBad(s) == s.bad = {}
 -------------------------------------------------------------------------------
 (* the model-checking instance: one state variable *)
 CONSTANTS MCLayout, InitMembers, Joiners, Leavers, MaxOps, Faults, OpKinds
+(* two switches of the model-checking instance ride on OpKinds (so the many configurations need no further constant):
+   "stab"    - also explore stabilize rounds that interleave with other steps (StabRead / StabWrite);
+   "fwdlock" - the forward to the surrogate is made while surrogateMu is still read-locked (the code before its repair) *)
+SplitStab == "stab" \in OpKinds
+FwdUnderLock == "fwdlock" \in OpKinds
+ClientKinds == OpKinds \ {"stab", "fwdlock"}
 
 VARIABLES s, ops      \* ops: client operations [kind, k, arg, at, hops, st, r]
 vars == <<s, ops>>
@@ -331,7 +348,8 @@ InitState(lay, members) ==
    pred |-> [n \in N |-> IF n \in members THEN PrevMember(lay, members, n) ELSE Nil],
    succ |-> [n \in N |-> IF n \in members THEN MkList(NextK(lay, members, n, 1)[1], Tail(NextK(lay, members, n, L))) ELSE <<>>],
    sur |-> [n \in N |-> Nil],
-   fset |-> [n \in N |-> {}],       \* recorded runs: the nodes named by the finger table (re-synchronised from the log, never computed)
+   fset |-> [n \in N |-> {}],
+   stb |-> [n \in N |-> [on |-> FALSE, nl |-> <<>>]],     \* a stabilize round between computing its list and installing it       \* recorded runs: the nodes named by the finger table (re-synchronised from the log, never computed)
    store |-> [n \in N |-> [k \in KeysOf(lay) |-> EmptyVal]],
    cur |-> [k \in KeysOf(lay) |-> EmptyVal],
    jpc |-> [n \in N |-> "idle"], jx |-> [n \in N |-> Nil], jp |-> [n \in N |-> Nil], jsl |-> [n \in N |-> <<>>],
@@ -367,10 +385,12 @@ Maintenance ==
   \E n \in NodesOf(s.lay) :
      \/ StabilizeEn(s, n) /\ s' = StabilizeF(s, n) /\ s' # s
      \/ CheckPredEn(s, n) /\ s' = CheckPredF(s, n) /\ s' # s
+     \/ SplitStab /\ StabReadEn(s, n) /\ s' = StabReadF(s, n)
+     \/ SplitStab /\ StabWriteEn(s, n) /\ s' = StabWriteF(s, n)
 
 OpStart ==
   /\ Len(ops) < MaxOps
-  /\ \E e \in {n \in NodesOf(s.lay) : s.st[n] = "Active"}, k \in KeysOf(s.lay), kind \in OpKinds :
+  /\ \E e \in {n \in NodesOf(s.lay) : s.st[n] = "Active"}, k \in KeysOf(s.lay), kind \in ClientKinds :
        ops' = Append(ops, [kind |-> kind, k |-> k, arg |-> Len(ops) + 1, at |-> e, hops |-> 0, held |-> {}, st |-> "run", r |-> <<"none", 0, {}>>])
   /\ UNCHANGED s
 
@@ -385,7 +405,8 @@ OpStep(i) ==
           ELSE IF a \in o.held THEN ops' = [ops EXCEPT ![i].st = "relock"] /\ UNCHANGED s     \* second surrogateMu.RLock of one call chain
           ELSE LET d == LocalDecision(s, a, k) IN
                IF d = "stale" THEN ops' = [ops EXCEPT ![i].st = "stale"] /\ UNCHANGED s
-               ELSE IF d = "fwd" THEN ops' = [ops EXCEPT ![i].at = s.sur[a], ![i].hops = o.hops + 1, ![i].held = @ \cup {a}] /\ UNCHANGED s
+               ELSE IF d = "fwd" THEN ops' = [ops EXCEPT ![i].at = s.sur[a], ![i].hops = o.hops + 1,
+                                                           ![i].held = IF FwdUnderLock THEN @ \cup {a} ELSE @] /\ UNCHANGED s
                ELSE /\ s' = LocalAccessF(s, a, k, o.kind, o.arg)
                     /\ ops' = [ops EXCEPT ![i].st = "ok", ![i].r = Apply(s.store[a][k], o.kind, o.arg)[2]]
 
